@@ -9,6 +9,7 @@ var Registry = map[string]func(tier string) int{
 	"C08": C08,
 	"C09": C09,
 	"C10": C10,
+	"C11": C11,
 	"C13": C13,
 	"C15": C15,
 	"C16": C16,
